@@ -491,20 +491,29 @@ def replay(pid, spec, path):
         print("replay names what no longer checks; nothing to execute"); return 0
     with Lock("build.lock"):
         regenerate(); coq_make([f + "o" for f in spec["run_files"]])
-        crate = "harness"
+        crates = {}
         for b in spec["harness"]:
-            if b["bin"] == r["bin"]: crate = b.get("crate", "harness")
-        build_harness([r["bin"]], crate=os.path.join(ROOT, crate))
-    rc, cases, _, _ = run_harness(r["bin"], r["seed"], r["scale"], crate=os.path.join(ROOT, crate))
-    fams = None
+            crates.setdefault(b.get("crate", "harness"), []).append(b["bin"])
+        for crate, bins in crates.items():
+            build_harness(bins, crate=os.path.join(ROOT, crate))
+    # the recorded index counts the cases of the whole batch (every harness binary of the property, in order, with the
+    # families and the environment of the registered run): the batch is generated again from the same seed
+    cases = []
     for b in spec["harness"]:
-        if b["bin"] == r["bin"]: fams = b.get("families")
-    cases = [(f, t) for f, t in cases if fams is None or f in fams]
+        rc, cs, _, _ = run_harness(b["bin"], r["seed"], r["scale"] * b.get("scale", 1), b.get("env"),
+                                   crate=os.path.join(ROOT, b.get("crate", "harness")))
+        fams = b.get("families")
+        known_fams = dict(bin_spec(spec, b["bin"])["checkers"])
+        for f_, d_ in spec.get("family_types", {}).items(): known_fams.update(d_["checkers"])
+        cases += [(f, t, b["bin"]) for f, t in cs if (fams is None or f in fams) and f in known_fams]
     now = cases[r["index"]] if r["index"] < len(cases) else None
+    if now and (now[0] != r.get("family", now[0]) or now[2] != r["bin"]):
+        print("the case at the recorded index is of another family (%s/%s): the generators changed since the replay was written" % (now[2], now[0]))
+        now = None
     print("recorded case : %s" % r["case"][:2000])
     print("re-run on impl: %s" % (now[1][:2000] if now else "<index out of range>"))
     if now:
-        codes, errs = eval_cases(pid, spec, [(now[0], now[1], r["bin"])], "replay")
+        codes, errs = eval_cases(pid, spec, [(now[0], now[1], now[2])], "replay")
         print("model/monitor code now: %s (0 ok, +1 model!=impl, +2 monitor false) %s" % (codes[0], errs))
         if codes[0] and codes[0] & 2:
             print("VIOLATION property=%s replay=%s" % (pid, os.path.relpath(path, ROOT))); return 1
